@@ -32,10 +32,13 @@ PLACEMENT = [
     ('structured', dict(T=2), None),
     ('split_two_node', dict(T=4, freq='12h'), 'd'),
     ('split_unequal_intervals', dict(T=5, freq='6h'), 'd'),
+    ('split_first_asset_starts_inside_interval', dict(T=4, wins=((1, 4), (0, 4), (0, 3)), two_nodes=True), '2h'),
+    ('split_first_asset_late_second_interval', dict(T=6, wins=((4, 6), (0, 6)), two_nodes=True), '3h'),
 ]
-SHAPE_OF = dict(two_node_window_gap='two_node', windows_gap_two_nodes='windows', split_two_node='two_node', split_unequal_intervals='two_node',
+SHAPE_OF = dict(split_first_asset_starts_inside_interval='windows', split_first_asset_late_second_interval='windows', two_node_window_gap='two_node', windows_gap_two_nodes='windows', split_two_node='two_node', split_unequal_intervals='two_node',
                 late_second_node='late_node')
-INSTANCES = ['two_node', 'contract_storage', 'multicommodity', 'late_node', 'uncoupled', 'coarse']
+INSTANCES = ['two_node', 'contract_storage', 'multicommodity', 'late_node', 'uncoupled', 'coarse',
+             'two_node@big', 'scaled@big', 'contract_storage@small']     # @big / @small: prices of the order 1e5 / 1e-4 (other currencies / units)
 SOLVERS = [None, 'CLARABEL', 'SCIPY']
 BOUNDS = dict(quick='placement: %s; supergradient certificate: 1 seeded instance of each of %s x solvers %s x all (node, step)' % ([p[0] for p in PLACEMENT], INSTANCES, SOLVERS),
               thorough='3 seeded instances per shape')
@@ -196,7 +199,9 @@ def instance_env(shape, k, seed):
     class Src(dict):
         def get(self, name, default=0.0):
             if name not in self:
-                if name.startswith(('tr', 'itr', 'xt')) and name.endswith('_min'):
+                if name.startswith('scale'):
+                    v = 0.0 if name.endswith('_min') else rnd.choice([1.0, 2.0, 3.0])
+                elif name.startswith(('tr', 'itr', 'xt')) and name.endswith('_min'):
                     v = rnd.choice([0.0, 0.5])
                 elif name.endswith('_min'):
                     v = -rnd.choice([1, 2, 3]) * 1.0
@@ -213,7 +218,7 @@ def instance_env(shape, k, seed):
                 elif name.endswith(('take',)):
                     v = rnd.choice([1.0, 2.0]) * (-1 if 'min' in name else 1)
                 elif name[0] in 'pqrk' and name[1:].isdigit():
-                    v = rnd.choice([1.0, 2.0, 3.5, 5.0, 0.5, 7.0])
+                    v = rnd.choice([1.0, 2.0, 3.5, 5.0, 0.5, 7.0]) * (20000.0 if shape.endswith('@big') else (1e-4 if shape.endswith('@small') else 1.0))
                 else:
                     v = rnd.choice([1.0, 1.5, 2.0, 3.0])
                 self[name] = v
@@ -222,7 +227,7 @@ def instance_env(shape, k, seed):
 
 
 SHAPE_KW = dict(two_node=dict(T=3), contract_storage=dict(T=4), multicommodity=dict(T=3, take=(0, 3)), late_node=dict(T=4),
-                uncoupled=dict(T=3), coarse=dict(T=4, kind='contract'))
+                uncoupled=dict(T=3), coarse=dict(T=4, kind='contract'), scaled=dict(T=3, base='storage'))
 
 
 def observe(case, kwargs, env, rq):
@@ -248,7 +253,7 @@ def marginal_check(shape, k, seed):
     obligations, violations, samples = [], [], []
     t_solver = 0.0
     for sv in SOLVERS:
-        sh = shapes.build_portfolio(D, shape, **SHAPE_KW[shape])
+        sh = shapes.build_portfolio(D, shape.split('@')[0], **SHAPE_KW[shape.split('@')[0]])
         op = sh.portf.setup_optim_problem(sh.prices, sh.tg)
         try:
             res = op.optimize(solver=sv) if sv else op.optimize()
